@@ -5,6 +5,8 @@ CONSTANTS
   NPKG = 4
   PEERANSWERS = TRUE
   CLOSESIGNAL = FALSE
+  Closers = {"X"}
+  RECHECK = TRUE
   GEN = TRUE
 CONSTRAINT GenPrint
 CHECK_DEADLOCK FALSE
